@@ -86,6 +86,14 @@ def supports : Ty → Op → Bool
   | .ipv, .dump => true
   | .ipv, _ => false
 
+/-- Members outside `supports` that exist only for the specialisation `inplace_vector<T, 0>`: it is an empty
+    class without user-declared special members, hence implicitly copy- and move-assignable, and the generic
+    `etl::swap` (which needs move assignment) applies to it.  The object is always empty, nothing is observable
+    through them; histories do not use them.  Only the member inventory (`api_member`) reports them.
+    Argument: the operation name of the line protocol. -/
+def ipvZeroExtra (cap : Nat) (member : String) : Bool :=
+  cap == 0 && (member == "copy_assign" || member == "move_assign" || member == "swap_free")
+
 /-- operations on object `k` alone, for `static_vector` (and the stack built on it) -/
 def step1 (cap : Nat) (op : Op) (d : V) : Except Err (V × Out) :=
   match op with
